@@ -50,9 +50,206 @@ let c05 ic =
     | _ -> failwith ("c05: bad line " ^ line)
   done with End_of_file -> ())
 
+
+(* ---------------- N / Z <-> text ---------------- *)
+open BinNums
+let rec pos_bits p = match p with Coq_xH -> [true] | Coq_xO q -> false :: pos_bits q | Coq_xI q -> true :: pos_bits q
+let n_bits = function N0 -> [] | Npos p -> pos_bits p                 (* LSB first *)
+let n_of_bits (bits : bool list) : coq_N =                            (* LSB first *)
+  let rec strip = function [] -> [] | l -> (match L.rev l with false :: r -> strip (L.rev r) | _ -> l) in
+  let rec go = function [] -> assert false | [true] -> Coq_xH | b :: r -> if b then Coq_xI (go r) else Coq_xO (go r) in
+  match strip bits with [] -> N0 | l -> Npos (go l)
+let hex_of_n (n : coq_N) : string =
+  let bits = Array.of_list (n_bits n) in
+  let len = Array.length bits in
+  if len = 0 then "0" else begin
+    let nn = (len + 3) / 4 in
+    let b = Buffer.create nn in
+    for i = nn - 1 downto 0 do
+      let v = ref 0 in
+      for j = 3 downto 0 do let k = 4 * i + j in v := !v * 2 + (if k < len && bits.(k) then 1 else 0) done;
+      Buffer.add_char b (St.get "0123456789abcdef" !v)
+    done; Buffer.contents b end
+let n_of_hex (s : string) : coq_N =
+  let bits = ref [] in
+  St.iter (fun c ->
+    let v = int_of_string ("0x" ^ St.make 1 c) in
+    bits := (v land 1 = 1) :: (v land 2 = 2) :: (v land 4 = 4) :: (v land 8 = 8) :: !bits) s;
+  n_of_bits !bits
+let n_of_int (i : int) : coq_N = n_of_hex (Printf.sprintf "%x" i)
+let int_of_n (n : coq_N) : int = int_of_string ("0x" ^ hex_of_n n)
+let hex_of_z = function Z0 -> "0" | Zpos p -> hex_of_n (Npos p) | Zneg p -> "-" ^ hex_of_n (Npos p)
+
+(* ---------------- C06 ---------------- *)
+let c06 ic =
+  let id = ref 0 and w = ref (n_of_int 64) in
+  let show_dec d = match d with
+    | NanBox.DPanic -> "PANIC" | NanBox.DErr -> "DECERR"
+    | NanBox.DOk v -> (match v with
+      | NanBox.VNull -> "NULL" | NanBox.VBool b -> if b then "BOOL 1" else "BOOL 0"
+      | NanBox.VNumber b -> "NUM " ^ hex_of_n b
+      | NanBox.VString (p, l) -> Printf.sprintf "STR %s %s" (hex_of_n p) (hex_of_n l)
+      | NanBox.VObject (p, l) -> Printf.sprintf "OBJ %s %s" (hex_of_n p) (hex_of_n l)
+      | NanBox.VArray (p, l) -> Printf.sprintf "ARR %s %s" (hex_of_n p) (hex_of_n l)
+      | NanBox.VError c -> "ERROR " ^ hex_of_n c) in
+  let both v = Printf.sprintf "BITS %s %s" (hex_of_n v) (show_dec (NanBox.try_decode !w v)) in
+  let nmin a b = if BinNat.N.leb a b then a else b in
+  (try while true do
+    let line = input_line ic in
+    match split line with
+    | ["CASE"; k; ww] -> id := int_of_string k; w := n_of_int (int_of_string ww)
+    | ["ENC"; kind; p; l] ->
+        let p = n_of_hex p and l = n_of_hex l in
+        let v = (match kind with "STR" -> NanBox.nb_string | "OBJ" -> NanBox.nb_obj | _ -> NanBox.nb_array) !w p l in
+        Printf.printf "M %d %s\n" !id (both v);
+        (* spec: (kind, pointer, min(len, limit)) comes back *)
+        Printf.printf "S %d RT %s %s %s\n" !id kind (hex_of_n p) (hex_of_n (nmin l (NanBoxGen.coq_MAX_VALUE_LENGTH !w)))
+    | ["BOOL"; b] -> Printf.printf "M %d %s\n" !id (both (NanBox.nb_bool !w (b = "1"))); Printf.printf "S %d RT BOOL %s\n" !id b
+    | ["NULL"] -> Printf.printf "M %d %s\n" !id (both (NanBox.nb_null !w)); Printf.printf "S %d RT NULL\n" !id
+    | ["ERR"; c] ->
+        let c = n_of_hex c in
+        if L.exists (fun (_, v) -> v = c) (NanBoxGen.coq_ErrorCode_variants !w)
+        then (Printf.printf "M %d %s\n" !id (both (NanBox.nb_error !w c)); Printf.printf "S %d RT ERROR %s\n" !id (hex_of_n c))
+        else (Printf.printf "M %d NOCODE\n" !id; Printf.printf "S %d RT NOCODE\n" !id)
+    | ["NUM"; b] ->
+        let b = n_of_hex b in
+        (match NanBox.nb_number !w b with
+         | None -> Printf.printf "M %d NUM-ASSERT\n" !id; Printf.printf "S %d RT NUM-ASSERT\n" !id
+         | Some v -> Printf.printf "M %d %s\n" !id (both v); Printf.printf "S %d RT NUM %s\n" !id (hex_of_n b))
+    | ["RAW"; v] -> Printf.printf "M %d %s\n" !id (show_dec (NanBox.try_decode !w (n_of_hex v))); Printf.printf "S %d RT ANY\n" !id
+    | ["END"] | [] -> ()
+    | _ -> failwith ("c06: bad line " ^ line)
+  done with End_of_file -> ())
+
+(* ---------------- C10 ---------------- *)
+let c10 ic =
+  let id = ref 0 and w = ref (n_of_int 64) in
+  let ty s = IntDeser.(match s with "i8" -> I8 | "i16" -> I16 | "i32" -> I32 | "i64" -> I64 | "u8" -> U8 | "u16" -> U16
+                      | "u32" -> U32 | "u64" -> U64 | "usize" -> Usize | "isize" -> Isize | _ -> failwith "type") in
+  (try while true do
+    let line = input_line ic in
+    match split line with
+    | ["CASE"; k; ww] -> id := int_of_string k; w := n_of_int (int_of_string ww)
+    | ["DES"; t; b] ->
+        let t = ty t and b = n_of_hex b in
+        (match IntDeser.deser_int !w t b with
+         | Some z -> Printf.printf "M %d OK %s\n" !id (hex_of_z z)
+         | None -> Printf.printf "M %d ERR\n" !id);
+        (* spec: exact integer value in range, or rejected *)
+        (match F64.exact_int b with
+         | Some z when not (BinInt.Z.ltb z (IntDeser.int_min !w t)) && not (BinInt.Z.ltb (IntDeser.int_max !w t) z) -> Printf.printf "S %d OK %s\n" !id (hex_of_z z)
+         | _ -> Printf.printf "S %d ERR\n" !id)
+    | ["END"] | [] -> ()
+    | _ -> failwith ("c10: bad line " ^ line)
+  done with End_of_file -> ())
+
+
+(* ---------------- C01 / C08 / C11: lazy reader ---------------- *)
+let nlist_of_hex s = L.map n_of_int (bytes_of_hex s)
+let hex_of_nlist l = hex_of_list (L.map int_of_n l)
+let z_of_int (i : int) : coq_Z = if i = 0 then Z0 else if i > 0 then (match n_of_int i with Npos p -> Zpos p | N0 -> Z0) else (match n_of_int (-i) with Npos p -> Zneg p | N0 -> Z0)
+let z_of_hexmag neg h = match n_of_hex h with N0 -> Z0 | Npos p -> if neg then Zneg p else Zpos p
+
+exception Malformed
+(* bytes -> wire tree with formats (OCaml-side decoder used only to hand the spec its argument;
+   checked below by re-encoding with the extracted [Wire.enc]) *)
+let wire_of_bytes (b : int array) : Wire.wire =
+  let n = Array.length b in
+  let pos = ref 0 in
+  let byte () = if !pos >= n then raise Malformed else (let v = b.(!pos) in incr pos; v) in
+  let be k = let v = ref 0 in for _ = 1 to k do v := !v * 256 + byte () done; !v in
+  let hexk k = let s = Buffer.create 16 in for _ = 1 to k do Buffer.add_string s (Printf.sprintf "%02x" (byte ())) done; Buffer.contents s in
+  let signed k v = if v >= 1 lsl (8 * k - 1) then v - (1 lsl (8 * k)) else v in
+  let take k = if !pos + k > n then raise Malformed else (let l = L.init k (fun i -> n_of_int b.(!pos + i)) in pos := !pos + k; l) in
+  let rec value () : Wire.wire =
+    let m = byte () in
+    if m < 0x80 then Wire.WInt (Wire.PFix, z_of_int m)
+    else if m < 0x90 then map Wire.LFix (m - 0x80)
+    else if m < 0xa0 then arr Wire.LFix (m - 0x90)
+    else if m < 0xc0 then Wire.WStr (Wire.FixStr, take (m - 0xa0))
+    else if m >= 0xe0 then Wire.WInt (Wire.NFix, z_of_int (m - 256))
+    else match m with
+      | 0xc0 -> Wire.WNil | 0xc2 -> Wire.WBool false | 0xc3 -> Wire.WBool true
+      | 0xca -> Wire.WF32 (n_of_hex (hexk 4)) | 0xcb -> Wire.WF64 (n_of_hex (hexk 8))
+      | 0xcc -> Wire.WInt (Wire.U8, z_of_int (be 1)) | 0xcd -> Wire.WInt (Wire.U16, z_of_int (be 2)) | 0xce -> Wire.WInt (Wire.U32, z_of_int (be 4))
+      | 0xcf -> Wire.WInt (Wire.U64, z_of_hexmag false (hexk 8))
+      | 0xd0 -> Wire.WInt (Wire.I8, z_of_int (signed 1 (be 1))) | 0xd1 -> Wire.WInt (Wire.I16, z_of_int (signed 2 (be 2))) | 0xd2 -> Wire.WInt (Wire.I32, z_of_int (signed 4 (be 4)))
+      | 0xd3 -> let h = hexk 8 in let v = Int64.of_string ("0x" ^ h) in
+                if Int64.compare v 0L >= 0 then Wire.WInt (Wire.I64, z_of_hexmag false h) else Wire.WInt (Wire.I64, z_of_hexmag true (Printf.sprintf "%Lx" (Int64.neg v)))
+      | 0xd9 -> let l = be 1 in Wire.WStr (Wire.Str8, take l) | 0xda -> let l = be 2 in Wire.WStr (Wire.Str16, take l) | 0xdb -> let l = be 4 in Wire.WStr (Wire.Str32, take l)
+      | 0xdc -> let l = be 2 in arr Wire.L16 l | 0xdd -> let l = be 4 in arr Wire.L32 l
+      | 0xde -> let l = be 2 in map Wire.L16 l | 0xdf -> let l = be 4 in map Wire.L32 l
+      | _ -> raise Malformed
+  and arr f l = if l > n then raise Malformed else
+    let acc = ref [] in for _ = 1 to l do acc := value () :: !acc done; Wire.WArr (f, L.rev !acc)
+  and map f l = if l > n then raise Malformed else
+    let acc = ref [] in for _ = 1 to l do let k = value () in let v = value () in acc := (k, v) :: !acc done; Wire.WMap (f, L.rev !acc)
+  in
+  let w = value () in if !pos <> n then raise Malformed else w
+
+let show_out w (o : Lazy.out) : string =
+  let inl l = let m = NanBoxGen.coq_MAX_VALUE_LENGTH w in if BinNat.N.leb l m then l else m in
+  match o with
+  | Lazy.OVal a -> (match a with
+      | Lazy.ANull -> "VAL NULL" | Lazy.ABool b -> if b then "VAL BOOL 1" else "VAL BOOL 0"
+      | Lazy.ANum b -> "VAL NUM " ^ hex_of_n b
+      | Lazy.AStr (_, l) -> Printf.sprintf "VAL STR %d" (int_of_n (inl l))
+      | Lazy.AArr (_, l) -> Printf.sprintf "VAL ARR %d" (int_of_n (inl l))
+      | Lazy.AObj (_, l) -> Printf.sprintf "VAL OBJ %d" (int_of_n (inl l))
+      | Lazy.AErr c -> Printf.sprintf "VAL ERR %d" (int_of_n c))
+  | Lazy.OLen (Some l) -> Printf.sprintf "LEN %d" (int_of_n l)
+  | Lazy.OLen None -> "LEN MAX"
+  | Lazy.OBytes (Some s) -> "BYTES " ^ hex_of_nlist s
+  | Lazy.OBytes None -> "BYTES NONE"
+  | Lazy.OStray -> "STRAY"
+  | Lazy.OPanic _ -> "PANIC"
+  | Lazy.OFuel -> "FUEL"
+
+let rop_of_line line : ReadRun.rop option =
+  let sc s = if s = "g" then None else Some (n_of_int (int_of_string s)) in
+  let big s = n_of_hex (Printf.sprintf "%x" (int_of_string s)) in
+  match split line with
+  | ["ROOT"] -> Some ReadRun.RRoot
+  | ["PROP"; s; n] | ["IPROP"; s; n] -> Some (ReadRun.RProp (sc s, nlist_of_hex n))
+  | ["IDX"; s; i] -> Some (ReadRun.RIdx (sc s, (try big i with _ -> n_of_hex "ffffffffffffffff")))
+  | ["KEY"; s; i] -> Some (ReadRun.RKey (sc s, (try big i with _ -> n_of_hex "ffffffffffffffff")))
+  | ["LEN"; s] -> Some (ReadRun.RLen (sc s))
+  | ["STR"; s] -> Some (ReadRun.RStr (sc s))
+  | _ -> None
+
+let c01 ic =
+  let id = ref 0 and w = ref (n_of_int 64) and doc = ref [] and ops = ref [] and cls = ref "" in
+  let flush_case () =
+    let bs = !doc in
+    let opl = L.rev !ops in
+    let fuel = nat_of_int (4 * L.length bs + 64) in
+    (* model: step by step *)
+    let st = ref ReadRun.rinit in
+    L.iter (fun op ->
+      st := ReadRun.exec !w true fuel bs !st op;
+      let o = L.nth (L.rev !st.ReadRun.outs) 0 in
+      Printf.printf "M %d %s\n" !id (show_out !w o)) opl;
+    (* spec: only for well-formed documents; computed from the decoded tree alone *)
+    (match (try Some (wire_of_bytes (Array.of_list (L.map int_of_n bs))) with Malformed -> None) with
+     | Some wt when Wire.wf wt && Wire.no_nan wt && Wire.enc wt = bs ->
+         L.iter (fun o -> Printf.printf "S %d %s\n" !id (show_out !w o)) (ReadSpec.spec_run wt opl)
+     | _ -> Printf.printf "S %d NOSPEC\n" !id) in
+  (try while true do
+    let line = input_line ic in
+    match split line with
+    | ["CASE"; k; ww; c] -> id := int_of_string k; w := n_of_int (int_of_string ww); cls := c; doc := []; ops := []
+    | ["DOC"; h] -> doc := nlist_of_hex h
+    | ["END"] -> flush_case ()
+    | [] -> ()
+    | _ -> (match rop_of_line line with Some op -> ops := op :: !ops | None -> failwith ("c01: bad line " ^ line))
+  done with End_of_file -> ())
+
 let () =
   let comp = Sys.argv.(1) in
   let ic = if Array.length Sys.argv > 2 then open_in Sys.argv.(2) else stdin in
   match comp with
+  | "c01" -> c01 ic
   | "c05" -> c05 ic
+  | "c06" -> c06 ic
+  | "c10" -> c10 ic
   | _ -> prerr_endline ("unknown component " ^ comp); exit 2
